@@ -122,6 +122,10 @@ func (w WLCase) Build() (*Built, error) {
 
 var schemes = []string{"none", "first", "all", "random", "one"}
 
+// oddSchemes are CapScheme values a caller can build that are none of the defined constants: what Generate does
+// with them is the library's choice, but it must be the same choice in Generate and in Entropy, and never a panic
+var oddSchemes = []string{"", "ALL", "First", "every", "rand", " one", "RANDOM", "None", "one ", "all\n", "Random", "One", "title", "random\x00"}
+
 type wlOpts struct {
 	minWords, maxWords int
 	maxLen             int
@@ -147,7 +151,7 @@ func genWLCase(r *gen.R, o wlOpts) WLCase {
 	w.Length = r.Range(1, o.maxLen)
 	w.Scheme = schemes[r.Intn(len(schemes))]
 	if o.allowUnknownScheme && r.Chance(1, 12) {
-		w.Scheme = []string{"", "ALL", "First", "every", "rand", " one", "RANDOM", "None", "one ", "all\n"}[r.Intn(10)]
+		w.Scheme = oddSchemes[r.Intn(len(oddSchemes))]
 	}
 	switch r.Intn(8) {
 	case 0:
